@@ -15,7 +15,7 @@ def pin_self(cpu=None):
     try:
         if cpu is None and len(os.sched_getaffinity(0)) == 1:
             return          # already pinned (pmap worker)
-        os.sched_setaffinity(0, {_ALL_CPUS[-1] if cpu is None else cpu})
+        os.sched_setaffinity(0, {_ALL_CPUS[os.getpid() % len(_ALL_CPUS)] if cpu is None else cpu})
     except (OSError, AttributeError):
         pass
 
@@ -55,8 +55,9 @@ def pmap(fn, args, procs=None, chunksize=1):
     out = [None] * len(args)
     n = min(procs, len(args))
     q = ctx.Queue()
+    off = os.getpid()       # checks running side by side should not all crowd on the first cores
     for i in range(n):
-        q.put(_ALL_CPUS[i % len(_ALL_CPUS)])
+        q.put(_ALL_CPUS[(off + i) % len(_ALL_CPUS)])
     with ctx.Pool(n, initializer=_init, initargs=(q,)) as pool:
         for i, res, err in pool.imap_unordered(_call, list(enumerate(args)), chunksize):
             if err is not None:
